@@ -151,10 +151,13 @@ HYPER = {
 def unsafe_stack_config(model, weights, activations, dtype):
     """Configurations that this sandbox's torch build cannot execute safely (kept out of every workload,
     see DESIGN section 8): torch._weight_int8pack_mm on CPU segfaults or returns garbage unless
-    in_features is a multiple of 16, while quanto routes bfloat16 x int8 into it whenever in_features % 4 == 0."""
+    in_features is a multiple of 16 *and* activations and weights are suitably aligned in memory (tensors
+    loaded from a checkpoint are views into one buffer and usually are not), while quanto routes
+    bfloat16 x int8 into it whenever in_features % 4 == 0. A crashing process cannot be simulated, so the
+    whole route is kept out: bfloat16 models with qint8 weights only get Linear layers with in_features % 4 != 0."""
     lins = [m for m in model.modules() if isinstance(m, torch.nn.Linear)]
-    if weights == "qint8" and dtype == "bfloat16" and any(m.in_features % 4 == 0 and m.in_features % 16 != 0 for m in lins):
-        return "int8pack_mm_k_not_multiple_of_16"
+    if weights == "qint8" and dtype == "bfloat16" and any(m.in_features % 4 == 0 for m in lins):
+        return "int8pack_mm_route"
     return None
 
 
